@@ -490,19 +490,22 @@ impl StakeKeeper {
             .unwrap();
 
         let remaining_percentage = Decimal::one() - percentage;
-        validator_info.stake = validator_info.stake.mul_floor(remaining_percentage);
 
-        // if the stake is completely gone, we clear all stakers and reinitialize the validator
-        if validator_info.stake.is_zero() {
+        // if everything is slashed, we clear all stakers and reinitialize the validator
+        if remaining_percentage.is_zero() {
+            validator_info.stake = Uint128::zero();
             // need to remove all stakes
             for delegator in validator_info.stakers.iter() {
                 STAKES.remove(staking_storage, (delegator, validator));
             }
             validator_info.stakers.clear();
         } else {
-            // otherwise we update all stakers
+            // otherwise we update all stakers; the validator's stake is the whole part of what
+            // they still hold together (rounding the previous total down at every slash would let
+            // it drift below the sum of the delegations)
+            let mut total = Decimal::zero();
             for delegator in validator_info.stakers.iter() {
-                STAKES.update(
+                let shares = STAKES.update(
                     staking_storage,
                     (delegator, validator),
                     |stake| -> AnyResult<_> {
@@ -512,7 +515,9 @@ impl StakeKeeper {
                         Ok(stake)
                     },
                 )?;
+                total += shares.stake;
             }
+            validator_info.stake = total.to_uint_floor();
         }
         // go through the queue to slash all pending unbondings
         let mut unbonding_queue = UNBONDING_QUEUE
